@@ -750,6 +750,11 @@ func marshalInner(pj *simdjson.ParsedJson, docs []*ref.Node) (what string) {
 		return ""
 	}
 	positions := valuePositions(docs)
+	// the root values themselves, through the iterator Root() hands out (its scope ends in front
+	// of the closing root entry, so after a top-level SetNull it ends in a gap)
+	for d := len(docs) - 1; d >= 0; d-- {
+		positions = append([]vpath{{d}}, positions...)
+	}
 	if len(positions) > 240 {
 		// very large documents: reaching position i costs O(i), so only the first k, the last
 		// k and k evenly spaced positions are marshalled (k = 80, or 8 above 3000 positions)
